@@ -631,7 +631,7 @@ impl Engine for C02 {
         let mut r = Rng::new(seed);
         let family = if r.chance(1, 3) { Family::Elements } else { Family::Core };
         // ---- choose the base encoding
-        let kind = r.weighted(&[64, 6, 8, 6, 10, 6]);
+        let kind = r.weighted(&[60, 6, 8, 6, 10, 6, 3, 3]);
         let (program, witness, origin): (Vec<u8>, Vec<u8>, String) = match kind {
             0 => {
                 let size = match r.below(4) {
@@ -707,6 +707,35 @@ impl Engine for C02 {
                         return;
                     }
                 }
+            }
+            6 => {
+                // source-type bomb: commitment-time bytes + an arbitrary witness stream. The witness
+                // type is up to 2^70 bits wide; the decoder must fail gracefully (no fault-free
+                // round trip here: the program cannot be populated)
+                let rec = programs::source_bomb_recipe(&mut r, family);
+                match programs::build_commit_bytes(&rec) {
+                    Some(p) => {
+                        out.count("source_bomb_bases", 1);
+                        for _ in 0..6 {
+                            let m = r.urange(0, 40);
+                            let w = r.bytes(m);
+                            self.deliver(family, &p, &w, "source-type bomb + arbitrary witness", &["prng_witness"], &mut r, out, true, false, None);
+                        }
+                    }
+                    None => out.count("recipes_discarded", 1),
+                }
+                return;
+            }
+            7 => {
+                // a word node that announces up to 2^31 bits and delivers almost none
+                let n = r.range(12, 31);
+                let mut p = crate::engines::asm::assemble(&[crate::engines::asm::ANode::WordHeaderOnly(n + 1)], None).unwrap_or_default();
+                // the header ends inside the last byte: keep its bits, append a little data
+                let extra = r.urange(0, 6);
+                p.extend(r.bytes(extra));
+                out.count("huge_word_header_bases", 1);
+                self.deliver(family, &p, &[], "word header announcing 2^n bits, truncated", &["truncate"], &mut r, out, true, false, None);
+                return;
             }
             _ => {
                 let n = r.urange(0, 40);
@@ -784,6 +813,8 @@ impl Engine for C02 {
             "canon_swapped_order",
             "canon_unshared_duplicate",
             "canon_repeated_hidden_node",
+            "source_bomb_bases",
+            "huge_word_header_bases",
         ]
     }
 
